@@ -595,11 +595,19 @@ def stream_f0(run: Run, c: Ctx, batch: Batch, extra):
         key = xd.f0_key(c.sym[z], q)
         row = rows.get(key)
         qs = Q_GRID + [round(rng.uniform(0, 90), 4) for _ in range(extra)]
+        qarr = np.array(qs, dtype=float)
         try:
-            vec = atom.xray.f0(np.array(qs))
+            vec = atom.xray.f0(qarr)
             err = None
         except KeyError:
             vec, err = None, "KeyError"
+        if err is None:
+            # the caller's array is an argument, not scratch space: unchanged, and a second call with it agrees
+            again = atom.xray.f0(qarr)
+            if list(qarr) != [float(x) for x in qs] or not all(
+                    (float(x) != float(x) and float(y) != float(y)) or float(x) == float(y) for x, y in zip(vec, again)):
+                run.violation("f0 changed the array of Q values it was given (or a second call with the same array differs)",
+                              dict(atom=[z, a, q], Q=qs, Q_after=[float(x) for x in qarr]), clause="scalar-vector")
         if (row is None) != (err is not None):
             run.violation("f0: coefficients %s but the call %s" % ("exist" if row else "do not exist", "raised" if err else "returned"),
                           dict(atom=[z, a, q], symbol=key), clause="f0-lookup")
